@@ -52,7 +52,7 @@ type c36Case struct {
 	Config  []byte `json:"config,omitempty"`
 	InPlace bool   `json:"in_place,omitempty"`
 	File    []byte `json:"file,omitempty"`
-	Desc    string `json:"desc"`
+	Desc    string `json:"-"` // human-readable, not part of the replay artefact (bin/check keeps the smallest artefact per fingerprint)
 }
 
 type c36Env struct {
@@ -179,6 +179,7 @@ func c36LenClass(v uint64, p int64) string {
 
 func (e *c36Env) write(name string, b []byte) string {
 	p := filepath.Join(e.dir, name)
+	os.Remove(p) // create afresh: overwriting by truncation makes ext4 flush on close (auto_da_alloc), 10x slower
 	if err := os.WriteFile(p, b, 0o644); err != nil {
 		e.r.HarnessError("scratch write failed: %v", err)
 	}
@@ -331,7 +332,8 @@ func (e *c36Env) anyFile(c c36Case, lenClass, magicLabel string) {
 		}
 		outc = append(outc, c36ErrClass(err)+","+szc)
 	}
-	out := filepath.Join(e.dir, "strip.bin") // content not inspected in this branch
+	out := filepath.Join(e.dir, "strip.bin")
+	os.Remove(out)
 	if pv := c36Call(func() { err = CopyBinaryWithoutConfig(path, out) }); pv != nil {
 		r.Violate("C36/panic/CopyBinaryWithoutConfig/"+site, fmt.Sprintf("CopyBinaryWithoutConfig panicked on %s: %v", c.Desc, pv), c)
 		outc = append(outc, "panic")
@@ -366,6 +368,7 @@ func TestVerif_C36(t *testing.T) {
 
 	var rc c36Case
 	if r.ReplayInto(&rc) {
+		rc.Desc = fmt.Sprintf("replayed case (file %q body %q)", rc.File, rc.Body)
 		if rc.Part == "A" {
 			e.roundTrip(rc)
 		} else {
